@@ -282,4 +282,152 @@ example :
       = some ([.path ⟨false, [⟨"default", false⟩], none⟩] ++ m :: []) ∧ m.getPath.isIdent "skip_inner" = true :=
   ⟨rfl, rfl⟩
 
+
+/-! ### A repeated `Zeroize(..)` option on a field (round 7) -/
+
+theorem MPath.isIdent_zeroize_not_skip (p : MPath) (h : p.isIdent "Zeroize" = true) : p.isIdent "skip" = false := by
+  unfold MPath.isIdent at *
+  split at h
+  · rename_i i hi
+    simp only [Bool.and_eq_true, Bool.not_eq_eq_eq_not, Bool.not_true, beq_iff_eq] at h
+    simp [h.2]
+  · cases h
+
+/-- With the flag already set, a non-empty `Zeroize(..)` option list is always refused. -/
+theorem ZeroizeFqs.addOptions_true (ms : List Meta) (b : Bool) (h : ZeroizeFqs.addOptions ms true = .ok b) : ms = [] := by
+  cases ms with
+  | nil => rfl
+  | cons m rest =>
+    cases m with
+    | path p =>
+      simp only [ZeroizeFqs.addOptions] at h
+      split at h <;> simp at h
+    | list p a i => simp [ZeroizeFqs.addOptions] at h
+    | nameValue p v => simp [ZeroizeFqs.addOptions] at h
+
+/-- From a clear flag a non-empty list can only succeed by setting it. -/
+theorem ZeroizeFqs.addOptions_false (ms : List Meta) (b : Bool) (hne : ms ≠ [])
+    (h : ZeroizeFqs.addOptions ms false = .ok b) : b = true := by
+  cases ms with
+  | nil => exact absurd rfl hne
+  | cons m rest =>
+    cases m with
+    | path p =>
+      simp only [ZeroizeFqs.addOptions] at h
+      split at h
+      · simp only [Bool.false_eq_true, ↓reduceIte] at h
+        have := ZeroizeFqs.addOptions_true rest b h
+        subst this
+        simpa [ZeroizeFqs.addOptions] using h.symm
+      · simp at h
+    | list p a i => simp [ZeroizeFqs.addOptions] at h
+    | nameValue p v => simp [ZeroizeFqs.addOptions] at h
+
+/-- A `Zeroize(..)` option that is accepted found the flag clear and leaves it set. -/
+theorem ZeroizeFqs.addAttribute_ok (self b : Bool) (m : Meta) (dws : List DeriveWhere)
+    (h : ZeroizeFqs.addAttribute self m dws = .ok b) : self = false ∧ b = true := by
+  unfold ZeroizeFqs.addAttribute at h
+  split at h
+  · simp at h
+  · cases m with
+    | path p => simp at h
+    | nameValue p v => simp at h
+    | list p parsable inner =>
+      simp only [] at h
+      cases hp : parseNonEmpty parsable inner with
+      | error e => simp [hp, bind, Except.bind] at h
+      | ok nested =>
+        simp only [hp, bind, Except.bind] at h
+        have hne : nested ≠ [] := by
+          unfold parseNonEmpty at hp
+          split at hp
+          · simp at hp
+          · split at hp
+            · simp at hp
+            · rename_i hi
+              simp only [Except.ok.injEq] at hp; subst hp
+              intro hn; simp [hn] at hi
+        cases self with
+        | true => exact absurd (ZeroizeFqs.addOptions_true nested b h) hne
+        | false => exact ⟨rfl, ZeroizeFqs.addOptions_false nested b hne h⟩
+
+/-- One step of the field option loop, as far as the `fqs` flag is concerned. -/
+theorem FieldAttr.addMetas_cons_fqs (c : Cfg) (dws : List DeriveWhere) (si : Skip) (m : Meta) (rest : List Meta)
+    (s : FieldAttr) :
+    Fails (FieldAttr.addMetas c dws si (m :: rest) s) ∨
+    ∃ s', FieldAttr.addMetas c dws si (m :: rest) s = FieldAttr.addMetas c dws si rest s' ∧
+      (s.fqs = true → s'.fqs = true) ∧
+      (m.getPath.isIdent "skip" = false → m.getPath.isIdent "Zeroize" = true → s.fqs = false ∧ s'.fqs = true) := by
+  by_cases hs : m.getPath.isIdent "skip" = true
+  · simp only [FieldAttr.addMetas, hs, ↓reduceIte]
+    cases h : Skip.addAttribute c s.skip "skip" dws (some si) m with
+    | error e => exact .inl ⟨e, by simp [bind, Except.bind]⟩
+    | ok sk =>
+      exact .inr ⟨{ s with skip := sk }, by simp [bind, Except.bind], fun h => h, fun h' => by simp [hs] at h'⟩
+  · have hs' : m.getPath.isIdent "skip" = false := by simpa using hs
+    simp only [FieldAttr.addMetas, hs', Bool.false_eq_true, ↓reduceIte]
+    by_cases hz : (c.zeroize && m.getPath.isIdent "Zeroize") = true
+    · simp only [hz, ↓reduceIte]
+      cases h : ZeroizeFqs.addAttribute s.fqs m dws with
+      | error e => exact .inl ⟨e, by simp [bind, Except.bind]⟩
+      | ok f =>
+        obtain ⟨h1, h2⟩ := ZeroizeFqs.addAttribute_ok _ _ _ _ h
+        exact .inr ⟨{ s with fqs := f }, by simp [bind, Except.bind], fun _ => h2, fun _ _ => ⟨h1, h2⟩⟩
+    · simp only [hz, Bool.false_eq_true, ↓reduceIte]
+      exact .inl ⟨_, rfl⟩
+
+/-- Once the flag is set, a later `Zeroize(..)` option of any form fails. -/
+theorem FieldAttr.addMetas_after_fqs (c : Cfg) (dws : List DeriveWhere) (si : Skip) (mid : List Meta) (m : Meta)
+    (post : List Meta) (hm1 : m.getPath.isIdent "skip" = false) (hm2 : m.getPath.isIdent "Zeroize" = true) :
+    ∀ s, s.fqs = true → Fails (FieldAttr.addMetas c dws si (mid ++ m :: post) s) := by
+  induction mid with
+  | nil =>
+    intro s hs
+    rcases FieldAttr.addMetas_cons_fqs c dws si m post s with he | ⟨s', _, _, h⟩
+    · exact he
+    · have := (h hm1 hm2).1
+      rw [hs] at this; cases this
+  | cons x mid ih =>
+    intro s hs
+    rcases FieldAttr.addMetas_cons_fqs c dws si x (mid ++ m :: post) s with he | ⟨s', heq, hkeep, _⟩
+    · exact he
+    · rw [List.cons_append, heq]; exact ih s' (hkeep hs)
+
+/-- Two `Zeroize(..)` options among the options of one field are rejected, wherever they stand. -/
+theorem FieldAttr.addMetas_zeroize_twice (c : Cfg) (dws : List DeriveWhere) (si : Skip) (pre mid post : List Meta)
+    (m1 m2 : Meta) (h1 : m1.getPath.isIdent "skip" = false ∧ m1.getPath.isIdent "Zeroize" = true)
+    (h2 : m2.getPath.isIdent "skip" = false ∧ m2.getPath.isIdent "Zeroize" = true) :
+    ∀ s, Fails (FieldAttr.addMetas c dws si (pre ++ m1 :: (mid ++ m2 :: post)) s) := by
+  apply FieldAttr.addMetas_append_error
+  intro s
+  rcases FieldAttr.addMetas_cons_fqs c dws si m1 (mid ++ m2 :: post) s with he | ⟨s', heq, _, h⟩
+  · exact he
+  · rw [heq]
+    exact FieldAttr.addMetas_after_fqs c dws si mid m2 post h2.1 h2.2 s' (h h1.1 h1.2).2
+
+/-- **Repeated `Zeroize(..)` field option.** A field carrying two `Zeroize(..)` options — `Zeroize(fqs), Zeroize(fqs)` in
+one attribute, or one in each of two attributes, with anything in between — is rejected in every configuration (`fqs`
+inside one list twice is `ZeroizeFqs.addOptions`'s duplicate error). -/
+theorem C15_fqs_repeated (c : Cfg) (raw : RawItem) (v : RawVariant) (f : RawField)
+    (hv : v ∈ raw.variants) (hf : f ∈ v.fields) (hs : v.shape ≠ .unit)
+    (pre mid post : List Meta) (m1 m2 : Meta)
+    (hflat : flatMetas f.attrs = some (pre ++ m1 :: (mid ++ m2 :: post)))
+    (h1 : m1.getPath.isIdent "Zeroize" = true) (h2 : m2.getPath.isIdent "Zeroize" = true) :
+    Fails (Input.fromInput c raw) := by
+  apply Input.fromInput_fails_of_field c raw v f hv hf _ hs
+  intro dws si
+  rw [FieldAttr.fromAttrs_flat_some c dws si f.attrs _ hflat]
+  exact FieldAttr.addMetas_zeroize_twice c dws si pre mid post m1 m2 ⟨MPath.isIdent_zeroize_not_skip _ h1, h1⟩
+    ⟨MPath.isIdent_zeroize_not_skip _ h2, h2⟩ _
+
+/-- The hypotheses of `C15_fqs_repeated` are met by `#[derive_where(Zeroize(fqs))] #[derive_where(Zeroize(fqs))]` on a
+field (two attributes) and by `#[derive_where(Zeroize(fqs), Zeroize(fqs))]` (one). -/
+example :
+    let fq : Meta := .list ⟨false, [⟨"Zeroize", false⟩], none⟩ true [.path ⟨false, [⟨"fqs", false⟩], none⟩]
+    flatMetas [.list [.ofMeta fq] none, .list [.ofMeta fq] none] = some ([] ++ fq :: ([] ++ fq :: [])) ∧
+    flatMetas [.list [.ofMeta fq, .comma, .ofMeta fq] none] = some ([] ++ fq :: ([] ++ fq :: [])) ∧
+    fq.getPath.isIdent "Zeroize" = true := by
+  refine ⟨rfl, rfl, ?_⟩
+  decide
+
 end DW
